@@ -119,7 +119,7 @@ reg("C11", exc_ops={"Reopen", "Clear"}, nontrivial=nt_pages, hook="life",
     weights={"Reopen": 24, "Clear": 5, "AddRule": 8, "CreateWe": 16, "DeleteWe": 6, "AddPage": 26},
     profile={"raw": 0.1, "long": 0.3, "nlrus": 12}, n=(60, 600), steps=(16, 24), title="Close/reopen/clear")
 reg("C12", exc_ops=set(), nontrivial=nt_we, mc=[("core", 4, 5), ("we", 4, 5)], gen_mc="we",
-    weights={"CreateWe": 12, "DeleteWe": 8, "Reopen": 10, "AddRule": 8, "Clear": 3},
+    weights={"CreateWe": 14, "DeleteWe": 8, "Reopen": 18, "AddRule": 10, "Clear": 3, "AddPage": 26},
     profile={"raw": 0.0, "long": 0.1}, title="Webentity ids")
 reg("C13", exc_ops=set(), nontrivial=nt_we, hook="hierarchy", obs_fail=False, mc=[("core", 4, 5), ("we", 4, 5)],
     gen_mc="we",
